@@ -30,3 +30,20 @@ PROPS['C13'].update(
     level_note='Trusted: Coq kernel, ExtrOcamlBasic extraction + 50-line OCaml glue (cross-checked in Coq by vm_compute on a slice), Go harness; '
                'the hand model is tied to the Go code behaviourally only.',
 )
+
+
+PROPS['C12'] = dict(
+    families=[
+        dict(name='c12-resolve', quick=40000, thorough=600000),
+        dict(name='c12-parseprint', quick=8000, thorough=100000),
+    ],
+    slice=120,
+    rule='(absolute base without fragment, IRI reference) pairs built from a component alphabet (7 schemes incl. upper case, 10 authorities incl. userinfo/port/IPv6/non-ASCII/pct-encoded, '
+         '16 segments incl. dot segments, pct-encodings of both cases, ":" and "@", empty vs absent query/fragment) + the 42 RFC 3986 5.4 examples; non-trivial = reference non-empty and different from the base',
+    trusted_base=['model/Iri3986.v is a literal transcription of RFC 3986 appendix B / 5.2.2 / 5.2.3 / 5.2.4 / 5.3 (checked against the 42 examples of 5.4 inside Coq)'],
+    assumptions=['base IRIs are RFC 3987 absolute-IRIs (no fragment), as RFC 3986 5.1 requires of a base'],
+    explanation='the Gallina model is the specification named by the property; iri.ParsedIRI is compared with it on every generated pair, a disagreement is a concrete violation',
+    level_text='Proof of the characterising theorems of the RFC 3986 transcription (parse/print identity on all strings, absolute-without-dots identity, dot-removal identity, absoluteness, fragment rule), '
+               'kernel-checked; iri.ParsedIRI.Parse(...).String() is compared with that executable specification on 40k (quick) / 600k (thorough) generated pairs per run.',
+    level_note='The theorems are about the RFC transcription; conformance of the Go code to it is established by the correspondence run only. One known finding (pct-encoded host rejected by net/url).',
+)
